@@ -166,6 +166,15 @@ func runSingleNodeRecovery(
 			}
 			count += len(resp.Operations)
 			for _, op := range resp.Operations {
+				// Recovered operations obey the same rule as gossiped ones: an operation
+				// that does not supersede what this node holds must not replace it.
+				var newer bool
+				if newer, err = supersedes(ctx, tx, op); err != nil {
+					return err
+				}
+				if !newer {
+					continue
+				}
 				if err = op.apply(ctx, tx); err != nil {
 					return err
 				}
